@@ -260,7 +260,7 @@ CHECKS["C20"] = dict(
             dict(harness="sched", variant="instr", harness_variant="plain", args=["--level", "2"], link=["-rdynamic"], prefix="l2_"),
             dict(harness="sched", variant="tsan", flags=["-DTSAN_PASS"], link=["-rdynamic"], prefix="tsan_", replayable=False)],
     rule="level 1: DFS over choice prefixes, every schedule within the preemption bound; level 2: (ordered pair, preemption point) enumerated; a schedule is non-trivial if it differs from the default (no preemption) schedule; all distinct",
-    bound_quick="level 1: pairs, <= 2 preemptions; level 2: every 7th function-boundary point; TSan: 16 runs", bound_thorough="level 1: pairs <= 3 preemptions, triples <= 2; level 2: every point; TSan: 48 runs",
+    bound_quick="level 1: pairs, <= 2 preemptions; level 2: every 7th function-boundary point; TSan: 16 runs", bound_thorough="level 1: all pairs <= 2 preemptions, a body with itself <= 3, body triples <= 2; level 2: every point; TSan: 48 runs",
     assumptions=["bodies use 8-9 records of about 1 KiB in blocks of 2-3 so that every sink sees several flushes"],
     deadline_thorough=1500,
 )
